@@ -211,9 +211,9 @@ type (
 		SRem(key string, members ...any) (int, error)
 		// SRemCtx 移除集合 key 中的一个或多个成员 members。
 		SRemCtx(ctx context.Context, key string, members ...any) (val int, err error)
-		// TTL 返回 key 的剩余生存秒数。
+		// TTL 返回 key 的剩余生存秒数；key 未设置过期时间时返回 -1，key 不存在时返回 -2。
 		TTL(key string) (int, error)
-		// TTLCtx 返回 key 的剩余生存秒数。
+		// TTLCtx 返回 key 的剩余生存秒数；key 未设置过期时间时返回 -1，key 不存在时返回 -2。
 		TTLCtx(ctx context.Context, key string) (val int, err error)
 		// ZAdd 向有序集合 key 添加或更新一个成员及其分数。
 		ZAdd(key string, score int64, member string) (bool, error)
